@@ -60,7 +60,8 @@ struct Opt { bool set; std::string v; };
 const std::vector<Opt>& tzdir_opts() { static std::vector<Opt> v = {{false, ""}, {true, ""}, {true, "/sim/zi"}, {true, "/sim/missing"}, {true, "/sim/zi/"}, {true, "relative/dir"}}; return v; }
 const std::vector<Opt>& tz_opts() {
   static std::vector<Opt> v = {{false, ""}, {true, ""}, {true, "X"}, {true, ":X"}, {true, "::X"}, {true, "localtime"}, {true, ":localtime"}, {true, ":"},
-                               {true, "No/Such"}, {true, "/abs/zone"}, {true, "Fixed/UTC+03:00:00"}, {true, "UTC"}, {true, "file:X"}, {true, ":TruncNL"}};
+                               {true, "No/Such"}, {true, "/abs/zone"}, {true, "Fixed/UTC+03:00:00"}, {true, "UTC"}, {true, "file:X"}, {true, ":TruncNL"},
+                               {true, "localtime2"}, {true, ":localtimes/site"}, {true, "Dir/localtime"}, {true, "LOCALTIME"}, {true, "localtim"}};
   return v;
 }
 const std::vector<Opt>& lt_opts() { static std::vector<Opt> v = {{false, ""}, {true, "/abs/lt"}, {true, "/abs/missing"}, {true, ""}, {true, "Dir/Y"}}; return v; }
@@ -68,7 +69,8 @@ const std::vector<std::string>& name_opts() {
   static std::vector<std::string> v = {"X", "Dir/Y", "No/Such", "/abs/zone", "/abs/missing", "file:X", "file:/abs/zone", "file:", "file:file:X", "", ":X", "UTC", "UTC0",
                                        "Fixed/UTC+05:30:00", "Fixed/UTC+25:00:00", "fixed/utc+01:00:00", "ADir", "NoPerm", "Trunc", "Leap", "BadMagic", "Empty", "V1", "Real",
                                        "X/", "./X", "localtime", "Dir", "Fixed/UTC-00:00:00", "Fixed/UTC+24:00:00", "file:UTC", "/etc/localtime", "file:No/Such", "Dir//Y", "MarkF", "TruncNL", "TruncFooter",
-                                       "Fixed/UTC+24:00:01", "Fixed/UTC+5:30:00", "UTC00", "utc", "Fixed/UTC+00:00:00", "Fixed/UTC-24:00:00", "Fixed/UTC+05:30", "file:Fixed/UTC+05:30:00"};
+                                       "Fixed/UTC+24:00:01", "Fixed/UTC+5:30:00", "UTC00", "utc", "Fixed/UTC+00:00:00", "Fixed/UTC-24:00:00", "Fixed/UTC+05:30", "file:Fixed/UTC+05:30:00",
+                                       "Dir/../X", "X/.", "Dir/./Y", "./Dir//Y", " X", "X ", "\xc3\x9cn\xc3\xaf/X", "EST5EDT", "<+03>-3", "Dir/../../X", "X/../X", "LONG", "Dir/Y/", "x", "X\tX"};
   return v;
 }
 
@@ -98,7 +100,18 @@ void standard_tree(C19Case* c) {
     add(d + "/V1", "reg", "marker:1");
     add(d + "/Real", "reg", "shipped:America/New_York");
     add(d + "/localtime", "reg", "marker");
+    add(d + "/localtime2", "reg", "marker");
+    add(d + "/localtimes", "dir", "");
+    add(d + "/localtimes/site", "reg", "marker");
+    add(d + "/Dir/localtime", "reg", "marker");
+    add(d + "/localtim", "reg", "marker");
     add(d + "/UTC", "reg", "marker");   // must never be consulted for the name "UTC"; reachable as file:UTC
+    add(d + "/ X", "reg", "marker");
+    add(d + "/X ", "reg", "marker");
+    add(d + "/x", "reg", "marker");             // names are case sensitive
+    add(d + "/\xc3\x9cn\xc3\xaf", "dir", "");
+    add(d + "/\xc3\x9cn\xc3\xaf/X", "reg", "marker");
+    add(d + "/EST5EDT", "reg", "marker");
     add(d + "/MarkF", "reg", "markerf");        // marker zone with a non-empty footer
     add(d + "/TruncNL", "reg", "truncf:1");     // ... whose closing newline is missing
     add(d + "/TruncFooter", "reg", "truncf:4"); // ... cut in the middle of the footer
@@ -144,7 +157,7 @@ bool content_valid(const FsSpec& f) {  // validity known by construction, never 
   return (f.kind == "reg" || f.kind == "fifo") && (f.content.compare(0, 6, "marker") == 0 || f.content.compare(0, 8, "shipped:") == 0);
 }
 
-const int64_t kCross = 6 * 14 * 5;
+const int64_t kCross = 6 * 19 * 5;
 
 }  // namespace
 
@@ -167,22 +180,28 @@ C19Case gen_c19(const std::string& part, const std::string& tier, uint64_t seed,
   };
   if (part == "cross") {
     int64_t e = idx % kCross, n = (idx / kCross) % static_cast<int64_t>(name_opts().size());
-    set_env(static_cast<size_t>(e % 6), static_cast<size_t>((e / 6) % 14), static_cast<size_t>(e / 84));
-    C19Op o; o.op = "load"; o.name = name_opts()[static_cast<size_t>(n)]; c.ops.push_back(o);
+    set_env(static_cast<size_t>(e % 6), static_cast<size_t>((e / 6) % 19), static_cast<size_t>(e / 114));
+    C19Op o; o.op = "load"; o.name = name_opts()[static_cast<size_t>(n)];
+    if (o.name == "LONG") o.name = "Dir/" + std::string(300, 'y');
+    c.ops.push_back(o);
     o.op = "local"; o.name.clear(); c.ops.push_back(o);
     o.op = "default"; c.ops.push_back(o);
     c.chunk = 4096;
     c.chunk2 = static_cast<int>(r.pick(std::vector<int>{1, 3, 7, 64, 65536}));
     return c;
   }
-  set_env(r.below(6), r.below(14), r.below(5));
+  set_env(r.below(6), r.below(19), r.below(5));
   if (r.chance(0.15)) { c.tz_set = true; c.tz = r.chance(0.5) ? ":" + r.pick(name_opts()) : r.pick(name_opts()); }
   if (r.chance(0.1)) { c.lt_set = true; c.lt = r.pick(name_opts()); }
   int nops = static_cast<int>(r.range(1, 6));
   for (int i = 0; i < nops; ++i) {
     C19Op o;
     uint64_t p = r.below(100);
-    if (p < 70) { o.op = "load"; o.name = r.pick(name_opts()); if (!c.ops.empty() && r.chance(0.15)) o.name = c.ops[r.below(c.ops.size())].name; }
+    if (p < 70) {
+      o.op = "load"; o.name = r.pick(name_opts());
+      if (o.name == "LONG") o.name = std::string(static_cast<size_t>(r.pick(std::vector<int>{200, 255, 256, 300, 1100, 5000})), 'y');
+      if (!c.ops.empty() && r.chance(0.15)) o.name = c.ops[r.below(c.ops.size())].name;
+    }
     else if (p < 92) o.op = "local";
     else o.op = "default";
     c.ops.push_back(o);
